@@ -12,6 +12,7 @@ from .. import gen, observe, ops
 from ..model import Ref, agree
 from ..core import Violation
 from . import c01
+from ..cli import SUB
 
 ID = "C14"
 LEVEL = "exploration"
@@ -49,7 +50,8 @@ def cases(draw, tier):
     return {"table": spec, "axis": draw(ops.AX), "mask": draw(ops.MASK),
             "order": draw(ops.KEY), "variant": variant,
             "style": draw(st.sampled_from(STYLES)),
-            "unknown": draw(st.sampled_from([False] * 7 + [True]))}
+            "unknown": draw(st.sampled_from([False] * 7 + [True])),
+            "sub": variant.startswith("cli") and draw(st.sampled_from(SUB))}
 
 
 def strategy(tier):
@@ -131,12 +133,13 @@ def check(case, rec):
                     f.write(reserialise(jtext, case["style"]))
                 args = ["-j", jp]
                 rec.cls("style:" + case["style"])
-            try:
-                subset_table.main(args + ["-a", axis, "-s", idp, "-o", out],
-                                  standalone_mode=False)
-            except SystemExit as e:
-                if e.code not in (0, None):
-                    raise RuntimeError("subset-table exited %r" % (e.code,))
+            from ..cli import invoke
+            rc, out_ = invoke(subset_table, "subset-table",
+                              args + ["-a", axis, "-s", idp, "-o", out],
+                              case.get("sub", False))
+            if rc != 0:
+                raise Violation("cli-exit", "subset-table exited %r: %s" %
+                                (rc, out_[-300:]))
             return load_table(out)
 
         if case["unknown"]:
@@ -201,4 +204,12 @@ REGRESSIONS = [
                "obs_gmd": None, "samp_gmd": None},
      "axis": "observation", "mask": [True, False], "order": [0],
      "variant": "cli_json", "style": "library", "unknown": False},
+    {"table": {"obs": ["o1", "o2", "o3"], "samp": ["s1", "s2"],
+               "rows": [[1.0, 0.0], [0.0, 3.0], [4.0, 5.0]], "shape": [3, 2],
+               "obs_md": None, "samp_md": None, "type": None,
+               "table_id": None, "form": "dense", "history": [],
+               "obs_gmd": None, "samp_gmd": None},
+     "axis": "observation", "mask": [True, False, True], "order": [0],
+     "variant": "cli_json", "style": "indent2", "unknown": False,
+     "sub": True},
 ]
